@@ -762,6 +762,42 @@ def gen_reapplied(rng, base, paths):
     return ('dirc', None, fsm)
 
 
+def gen_nested_partial(rng):
+    """nested -selection (2-3 deep) / -with-pruned + -selection where ONE matcher is partial (HARD_ERROR on files of the wrong
+    type: dir-contents .., contents .., ) and the others decide which files it is asked about; both nestings"""
+    kind = rng.below(3)
+    if kind == 0:
+        guard, partial = ('type', 1), ('dirc', rng.choice([None, None, (None, None), (None, 0)]),
+                                       rng.choice([('empty',), ('num', rng.below(6), rng.randint(0, 2)), ('not', ('empty',))]))
+    elif kind == 1:
+        guard, partial = ('type', 0), ('contents', gen_tm(rng))
+    else:
+        guard = rng.choice([('not', ('type', 1)), ('not', ('type', 2)), ('name', 0, rng.below(len(STR_PATS))),
+                            ('namere', 3, rng.below(len(RE_STR_PATS)))])
+        partial = rng.choice([('contents', gen_tm(rng)), ('dirc', None, ('empty',))])
+    chain = [guard, partial]
+    if rng.chance(0.35):
+        chain.insert(rng.below(3), rng.choice([('name', 0, rng.below(len(STR_PATS))), ('not', ('type', 2)), ('const', True)]))
+    if rng.chance(0.4):
+        chain.reverse()           # the partial matcher outermost: documented HARD_ERROR when a file of the wrong type is there
+    leaf = rng.choice([('num', rng.below(6), rng.randint(0, 3)), ('empty',), ('any', ('type', rng.below(3))),
+                       ('every', ('type', rng.below(3))), ('not', ('empty',))])
+    fsm = leaf
+    use_prune = rng.chance(0.25)
+    for i, f in enumerate(reversed(chain)):
+        fsm = ('sel', f, fsm)
+        if use_prune and i == rng.below(len(chain)):
+            fsm = ('prune', rng.choice([('type', 2), ('name', 0, rng.below(len(STR_PATS))), ('dirc', None, ('empty',))]), fsm)
+    if use_prune and rng.chance(0.5):
+        # two prune matchers, one of them partial on directories (contents ..): which one is asked first matters
+        pr = [('type', 1), ('contents', ('empty',))]
+        if rng.chance(0.5):
+            pr.reverse()
+        fsm = ('prune', pr[0], ('prune', pr[1], fsm))
+    cfg = (None, None) if use_prune or rng.chance(0.3) else None
+    return ('dirc', cfg, fsm)
+
+
 def make_tree(base, node, rng):
     """create on disk; links last (their targets must exist for relative links to be meaningful)"""
     links = []
@@ -1286,6 +1322,8 @@ def collect(ctx, res, rng, n_p, n_trees, per_tree, scratch_name='c15-run', p_for
             n_dirs = sum(1 for c in paths if len(c) == 1 and os.path.isdir(os.path.join(base, *c)))
             if n_dirs >= 2 and rng.chance(0.65 if siblings else 0.1):
                 m = gen_reapplied(rng, base, paths)
+            elif rng.chance(0.09):
+                m = gen_nested_partial(rng)
             elif r < 8 and paths:
                 # the condition that lists exactly the files of the tree (recursively), sometimes spoiled
                 fc = full_condition_of(paths, base)
@@ -1324,6 +1362,8 @@ def collect(ctx, res, rng, n_p, n_trees, per_tree, scratch_name='c15-run', p_for
             matcher_features(m, f)
             if repr(m).count("'dirc'") >= 2 and n_dirs >= 2:
                 f.add('matcher applied to several directories')
+            if repr(m).count("('sel', ") >= 2 and ("'contents'" in repr(m) or repr(m).count("'dirc'") >= 2):
+                f.add('nested selections with a partial matcher')
             if has_dup_names(m):
                 f.add('files-condition with a repeated name')
             d['features'] = sorted(f)
@@ -1373,7 +1413,9 @@ def run(ctx, res):
                 'random creation order; expressions of depth <= 3 over every files-matcher and file-matcher of the model (glob and regex '
                 'name/stem/suffixes/suffix/path patterns, contents with is-empty/equals/! and 9 opaque text matchers, run with 5 '
                 'programs, type, dir-contents), every '
-                'min/max depth in {none,0..3}, both nestings of -selection / -with-pruned, 20 % of the trees are 2-4 sibling directories '
+                'min/max depth in {none,0..3}, both nestings of -selection / -with-pruned, 9 % nested -selection chains (2-3 deep, '
+                'optionally with -with-pruned) in which ONE matcher is partial (dir-contents / contents: HARD_ERROR on the wrong '
+                'type) and the others decide which files it sees, both orders, 20 % of the trees are 2-4 sibling directories '
                 'holding different subsets of 4 names on which ONE matches / num-files / any-file primitive is applied to every '
                 'directory within one instruction (any / every file, -selection, -with-pruned over dir-contents), 35 % of the '
                 'FILES-CONDITIONs repeat a name (matcher-less line before / after a line with a matcher, ./ variant),  FILES-CONDITIONs built from the paths '
